@@ -5,7 +5,7 @@
    above u or within tolerance of 0 / u or the product vanishes, p = 0 once the total exceeds N t) and the clamp of
    the alternative to [m, u] are translated entry-wise.  An added guard, a reordered, changed or missing line is a
    refusal of the translator, i.e. a broken proof obligation. *)
-From SV Require Import Xq NNM NNM_ranges NNM_spec NNM_hist.
+From SV Require Import Xq NNM NNM_machines NNM_ranges NNM_spec NNM_hist NNM_wf NNM_prefix NNM_kaplan.
 From SVG Require Import Gen_arith.
 Open Scope Q_scope.
 
@@ -18,14 +18,51 @@ Lemma gen_alpha_override_steps_is_5 : gen_alpha_override_steps = 5%nat /\ gen_be
 Proof. split; reflexivity. Qed.
 Lemma gen_alpha_clamp_is_model u est m : gen_alpha_clamp u est m = clamp_eta u est m.
 Proof. reflexivity. Qed.
-Lemma gen_kk_ratio_fix_is_model x g m : kk_ratio (x + g) m = gen_kk_ratio_fix x g m (xdiv (Fin (x + g)) (Fin m)).
+Lemma gen_kk_ratio_fix_is_model xg m : kk_ratio xg m = gen_kk_ratio_fix xg m (xdiv (Fin xg) (Fin m)).
 Proof. reflexivity. Qed.
-Lemma gen_kk_override_is_model x g m tm : gen_kk_override x g m tm = kk_override (x + g) m tm.
+Lemma gen_kk_override_is_model xg m tm : gen_kk_override xg m tm = kk_override xg m tm.
+Proof. reflexivity. Qed.
+
+(* the WHOLE of each test after its factors, line for line: the hand model is the regenerated data flow *)
+Lemma gen_alpha_tail_is_model sqrtq e N t u xs :
+  alpha_mart sqrtq e N t u xs
+  = gen_alpha_tail N t u xs (mu_list N t xs)
+      (map3 (alpha_factor u) xs (map2 (fun est m => gen_alpha_clamp u est m) (run_estim sqrtq e N t u xs) (mu_list N t xs))
+            (mu_list N t xs)).
+Proof. reflexivity. Qed.
+Lemma gen_betting_tail_is_model sqrtq b N t u xs :
+  betting_mart sqrtq b N t u xs
+  = gen_betting_tail N t u xs (mu_list N t xs) (map3 betting_factor xs (run_bet sqrtq b N t u xs) (mu_list N t xs)).
+Proof. reflexivity. Qed.
+Lemma gen_kk_tail_is_model g ro n t xs :
+  kaplan_kolmogorov g ro n t xs
+  = gen_kk_tail ro (map (fun x => x + g) xs) (mu_list (Some n) (t + g) (map (fun x => x + g) xs)).
+Proof. reflexivity. Qed.
+Lemma gen_km_tail_is_model g ro t xs :
+  kaplan_markov g ro t xs = gen_km_tail ro (map (fun x => xdiv (Fin (t + g)) (Fin (x + g))) xs).
+Proof. reflexivity. Qed.
+Lemma gen_kw_tail_is_model g ro t xs :
+  kaplan_wald g ro t xs = gen_kw_tail ro (map (fun x => Fin ((1 - g) * x / t + g)) xs).
+Proof. reflexivity. Qed.
+Lemma gen_sprt_tail_is_model sqrtq eta ro N t u xs :
+  wald_sprt sqrtq eta ro N t u xs = gen_sprt_tail ro (alpha_mart sqrtq (EFixed eta) N t u xs).
 Proof. reflexivity. Qed.
 Lemma gen_skeletons_matched :
   gen_alpha_skeleton_matched && gen_betting_skeleton_matched && gen_kk_skeleton_matched && gen_km_skeleton_matched
   && gen_kw_skeleton_matched && gen_sprt_skeleton_matched = true.
 Proof. reflexivity. Qed.
+
+(* the absorbing lines are invisible on exact products (they only matter once the float product has overflowed) *)
+Theorem gen_kw_absorb_invisible g ro t xs :
+  gen_kw_tail ro (map (fun x => Fin ((1 - g) * x / t + g)) xs)
+  = (let hist := xcumprod (Fin 1) (map (fun x => Fin ((1 - g) * x / t + g)) xs) in
+     (xmin_np (Fin 1) (if ro then xinv (xmax_list hist) else xinv (xlast hist)), map (fun h => xmin_np (xinv h) (Fin 1)) hist)).
+Proof. unfold gen_kw_tail. cbv zeta. now rewrite NNM_kaplan.kw_absorb_id. Qed.
+Theorem gen_km_absorb_invisible g ro t xs : 0 < t + g -> Forall (fun x => 0 <= x + g) xs ->
+  gen_km_tail ro (map (fun x => xdiv (Fin (t + g)) (Fin (x + g))) xs)
+  = (let hist := xcumprod (Fin 1) (map (fun x => xdiv (Fin (t + g)) (Fin (x + g))) xs) in
+     (xmin_np (Fin 1) (if ro then xmin_list hist else xlast hist), map (fun h => xmin_np h (Fin 1)) hist)).
+Proof. intros H1 H2. unfold gen_km_tail. cbv zeta. now rewrite (NNM_kaplan.km_absorb_id g t xs H1 H2). Qed.
 
 (* what the generated conventions mean (C12: "p = 0 once the observed total exceeds N t and p = 1 where mu_i > u";
    C11: entries are well formed whatever the running product is) *)
@@ -48,12 +85,12 @@ Proof.
 Qed.
 Theorem gen_clamp_range u est m : m <= u -> m <= gen_alpha_clamp u est m <= u.
 Proof. intro H. rewrite gen_alpha_clamp_is_model. now apply clamp_eta_range. Qed.
-Theorem gen_kk_override_exceeded x g m tm : m < 0 \/ (m == 0 /\ 0 < x + g) -> gen_kk_override x g m tm = PInf.
+Theorem gen_kk_override_exceeded xg m tm : m < 0 \/ (m == 0 /\ 0 < xg) -> gen_kk_override xg m tm = PInf.
 Proof.
   intro H. rewrite gen_kk_override_is_model. unfold kk_override.
   destruct H as [H|[H1 H2]].
   - assert (E : Qlt_bool m 0 = true) by (apply Qlt_bool_iff; auto). now rewrite E.
   - assert (E1 : Qeq_bool m 0 = true) by (apply Qeq_bool_iff; auto).
-    assert (E2 : Qlt_bool 0 (x + g) = true) by (apply Qlt_bool_iff; auto).
+    assert (E2 : Qlt_bool 0 xg = true) by (apply Qlt_bool_iff; auto).
     rewrite E1, E2. now rewrite orb_true_r.
 Qed.
